@@ -354,6 +354,7 @@ fn build_threaded_choice_block_no_label(
 
         let branch_name = format!("c-{local_choice_index}");
         let branch_scope = block_scope.choice_branch(&branch_name);
+        let label_scan_path = joined_path(&scope.path, &branch_name);
         choices_group.insert_named(
             branch_name,
             emit_wrapped_loop_choice_body(
@@ -365,6 +366,7 @@ fn build_threaded_choice_block_no_label(
                     choices_prefix: &choices_prefix,
                     continuation_path: Some(&continuation_path_abs),
                     continuation_terminal: None,
+                    label_scan_path: Some(&label_scan_path),
                 },
                 context,
             )?,
@@ -378,6 +380,7 @@ fn build_threaded_choice_block_no_label(
         let branch_name = format!("c-{local_choice_index}");
         let branch_scope = block_scope.choice_branch(&branch_name);
         choices_group.push(json!({"*": branch_scope.path, "flg": 8}));
+        let label_scan_path = joined_path(&scope.path, &branch_name);
         choices_group.insert_named(
             branch_name,
             emit_wrapped_loop_choice_body(
@@ -389,6 +392,7 @@ fn build_threaded_choice_block_no_label(
                     choices_prefix: &choices_prefix,
                     continuation_path: Some(&continuation_path_abs),
                     continuation_terminal: None,
+                    label_scan_path: Some(&label_scan_path),
                 },
                 context,
             )?,
